@@ -25,8 +25,10 @@ def float_fields(fmt):
     return out
 
 
-def field_name(fmt, rec, f):
-    return f"{fmt}.{rec.func}:{{{f.expr.replace(' ', '')[:40]}:{f.spec}}}"
+def field_name(fmt, rec, f, org=None):
+    """Name of a printed field in obligation names: format, provenance (fmtspec.identity) and format spec - not the local
+    variable names of the writer, so that renaming a local or moving a record into a helper keeps the name."""
+    return f"{fmt}:{{{fmtspec.identity(f, org)}:{f.spec}}}"
 
 
 def opaque_records(fmt):
